@@ -334,6 +334,32 @@ type msgCase struct {
 	CompAsIs []tItem `json:"compasis"`
 }
 
+// c13UsedWriter: a Writer that has been used writes the same message header as a fresh one, whatever was written
+// through it before (the writers keep scratch space between calls)
+func c13UsedWriter(c *Ctx, k thriftCase, proto string, m thrift.Message, fresh []byte) {
+	for hi, hist := range [][]func(w thrift.Writer){
+		{func(w thrift.Writer) { w.WriteInt32(-1) }},
+		{func(w thrift.Writer) { w.WriteInt64(-1) }, func(w thrift.Writer) { w.WriteFloat64(0.1) }},
+		{func(w thrift.Writer) {
+			w.WriteMessage(thrift.Message{Type: thrift.Reply, Name: "earlier", SeqID: 0x01020304})
+		}},
+		{func(w thrift.Writer) { w.WriteInt16(0x1515) }, func(w thrift.Writer) { w.WriteString("xyz") }, func(w thrift.Writer) { w.WriteInt8(-1) }},
+	} {
+		var used bytes.Buffer
+		w := protoOf(proto).NewWriter(&used)
+		for _, f := range hist {
+			f(w)
+		}
+		at := used.Len()
+		c.Eval(1)
+		if err := w.WriteMessage(m); err != nil || !bytes.Equal(used.Bytes()[at:], fresh) {
+			c.Diverge("C13", "WriteMessage(on a Writer used before)["+proto+"]", hex.EncodeToString(fresh),
+				fmt.Sprintf("%x err=%v (history %d)", used.Bytes()[at:], err, hi), "", k)
+			return
+		}
+	}
+}
+
 func c13Messages(c *Ctx, cases []msgCase) {
 	for _, mc := range cases {
 		for _, salt := range []int{0, 2} {
@@ -356,6 +382,7 @@ func c13Messages(c *Ctx, cases []msgCase) {
 					continue
 				}
 				c13Classify(c, k, "WriteMessage", buf.Bytes(), want, asis, h.finding)
+				c13UsedWriter(c, k, h.proto, m, buf.Bytes())
 				// the specified header must be read back
 				got, rerr := protoOf(h.proto).NewReader(bytes.NewReader(want)).ReadMessage()
 				c.Eval(1)
@@ -442,6 +469,7 @@ func c13Replay(c *Ctx, raw stdjson.RawMessage) {
 			c.Diverge("C13", "WriteMessage["+k.Proto+"]", k.Want, hex.EncodeToString(buf.Bytes()), "", k)
 			c.Diverge("C13", "ReadMessage["+k.Proto+"]", k.Want, hex.EncodeToString(buf.Bytes()), "", k)
 		}
+		c13UsedWriter(c, k, k.Proto, thrift.Message{Type: thrift.MessageType(mt), Name: name, SeqID: int32(seq)}, buf.Bytes())
 		return
 	}
 	l := tlift{k.Salt}
@@ -589,7 +617,64 @@ type EmbTop struct {
 	I int16 `thrift:"7"`
 }
 
+// c04Recursive: a struct type that contains itself through a map / list / pointer (the decoder of such a field is
+// entered again while it is at work), and the same round trips behind a decode of the same type that failed half-way
+type RecTree struct {
+	Name     string             `thrift:"1"`
+	Children map[string]RecTree `thrift:"2"`
+	List     []RecTree          `thrift:"3"`
+	Next     *RecTree           `thrift:"4"`
+	N        int32              `thrift:"5"`
+}
+
+func c04Recursive(c *Ctx) {
+	leaf := func(n string, v int32) RecTree { return RecTree{Name: n, N: v} }
+	vals := []RecTree{
+		{Name: "root", Children: map[string]RecTree{"a": {Name: "a", Children: map[string]RecTree{"x": leaf("x", 1), "y": leaf("y", 2)}}, "b": leaf("b", 3)}},
+		{Name: "l", List: []RecTree{{Name: "l1", List: []RecTree{leaf("l2", 4)}}, leaf("l3", 0)}, Next: &RecTree{Name: "n", Children: map[string]RecTree{"k": leaf("", 5)}}},
+		{Children: map[string]RecTree{"only": {Children: map[string]RecTree{"deep": {Children: map[string]RecTree{"deeper": leaf("d", 9)}}}}}},
+		{Children: map[string]RecTree{"zero": {}, "z2": {N: 0, Name: ""}}, N: 7},
+	}
+	for _, pn := range []string{"binary", "binary-nonstrict", "compact"} {
+		p := protoOf(pn)
+		for i, v := range vals {
+			for _, poisoned := range []bool{false, true} {
+				k := thriftCase{Proto: pn, What: fmt.Sprintf("recursive types %d poisoned=%v", i, poisoned)}
+				c.Case()
+				c.Eval(1)
+				var b []byte
+				var err error
+				if pan := protect(func() { b, err = thrift.Marshal(p, v) }); pan != "" || err != nil {
+					c.Diverge("C04", "thrift.Marshal(recursive types)["+pn+"]", "nil error", fmt.Sprintf("%v %s", err, pan), "", k)
+					continue
+				}
+				if poisoned { // every prefix of another value's encoding first: decodes that stop in the middle of an entry
+					ob, _ := thrift.Marshal(p, vals[(i+1)%len(vals)])
+					for cut := 1; cut < len(ob); cut += 1 + len(ob)/40 {
+						var junk RecTree
+						protect(func() { thrift.Unmarshal(p, ob[:cut], &junk) })
+					}
+				}
+				var out RecTree
+				if pan := protect(func() { err = thrift.Unmarshal(p, b, &out) }); pan != "" || err != nil {
+					c.Diverge("C04", "thrift.Unmarshal(Marshal(v))(recursive types)["+pn+"]", "nil error", fmt.Sprintf("%v %s bytes=%x", err, pan, b), "", k)
+					continue
+				}
+				w, _ := stdjson.Marshal(v)
+				g, _ := stdjson.Marshal(out)
+				norm := func(s []byte) string {
+					return strings.NewReplacer(":null", ":Z", ":[]", ":Z", ":{}", ":Z").Replace(string(s))
+				}
+				if norm(w) != norm(g) {
+					c.Diverge("C04", "thrift.Unmarshal(Marshal(v))(recursive types)["+pn+"]", string(w), string(g)+fmt.Sprintf(" bytes=%x", b), "", k)
+				}
+			}
+		}
+	}
+}
+
 func c04Embedded(c *Ctx) {
+	c04Recursive(c)
 	l3 := EmbL3{A: 11, B: 22, C: "c", H: 88}
 	vals := []any{
 		EmbL2{EmbL3: l3, D: 4},
@@ -690,7 +775,7 @@ func sameEncoding(a, b []byte, permuted bool) bool {
 func c04Replay(c *Ctx, raw stdjson.RawMessage) {
 	var k thriftCase
 	if stdjson.Unmarshal(raw, &k) == nil {
-		if strings.HasPrefix(k.What, "embedded structs") {
+		if strings.HasPrefix(k.What, "embedded structs") || strings.HasPrefix(k.What, "recursive types") {
 			c04Embedded(c)
 			return
 		}
@@ -1261,6 +1346,67 @@ func convertAlt(dst, src reflect.Value, n *int) {
 	}
 }
 
+// c08ForeignBools: other writers announce the booleans of a list, set or map with the type code TRUE (1) where this
+// package writes BOOL (2); the decoder takes both for a declared field, and both are skipped alike in a field the
+// target does not declare - alone, in a struct, in a list of lists
+func c08ForeignBools(c *Ctx) {
+	type full struct {
+		A int32  `thrift:"1"`
+		L []bool `thrift:"9"`
+		S struct {
+			L []bool `thrift:"1"`
+		} `thrift:"10"`
+		M  map[int32]bool `thrift:"11"`
+		LL [][]bool       `thrift:"12"`
+		Z  int32          `thrift:"20"`
+	}
+	type partial struct {
+		A int32 `thrift:"1"`
+		Z int32 `thrift:"20"`
+	}
+	in := full{A: 5, L: []bool{true, false, true}, M: map[int32]bool{7: true}, LL: [][]bool{{true}, {false, true}}, Z: 9}
+	in.S.L = []bool{false, true}
+	for _, pn := range []string{"binary", "compact"} {
+		p := protoOf(pn)
+		b, err := thrift.Marshal(p, in)
+		if err != nil {
+			c.SpecError("C08", "cannot encode the superset struct", err.Error())
+			return
+		}
+		// every way of rewriting a BOOL (2) element / value type code into TRUE (1): the headers of bool collections are
+		// <02 count32> (binary list), <x2> with x the count (compact list, count < 15), <.. 02 count32> / <..52> (map value)
+		var variants [][]byte
+		for i := range b {
+			v := append([]byte(nil), b...)
+			switch {
+			case pn == "binary" && b[i] == 2 && i+4 < len(b) && b[i+1] == 0 && b[i+2] == 0 && b[i+3] == 0 && b[i+4] > 0 && b[i+4] < 4:
+				v[i] = 1
+			case pn == "compact" && b[i]&0x0f == 2 && b[i]>>4 > 0 && b[i]>>4 < 4 && i > 0:
+				v[i] = b[i]&0xf0 | 1
+			default:
+				continue
+			}
+			variants = append(variants, v)
+		}
+		for vi, v := range append([][]byte{b}, variants...) {
+			k := thriftCase{Proto: pn, What: fmt.Sprintf("foreign bools %d", vi), Bytes: hex.EncodeToString(v)}
+			// the rewritten input must still be what it was for a reader that declares the fields (else the rewrite hit
+			// something else than a type code: not a case)
+			var chk full
+			if err := thrift.Unmarshal(p, v, &chk); err != nil || !reflect.DeepEqual(chk, in) {
+				continue
+			}
+			c.Case()
+			c.Eval(1)
+			var out partial
+			var derr error
+			if pan := protect(func() { derr = thrift.Unmarshal(p, v, &out) }); pan != "" || derr != nil || out.A != 5 || out.Z != 9 {
+				c.Diverge("C08", "thrift.Unmarshal(unknown collections of booleans)["+pn+"]", "{A:5 Z:9} nil error", fmt.Sprintf("%+v err=%v %s bytes=%x", out, derr, pan, v), "", k)
+			}
+		}
+	}
+}
+
 func c08Vector(c *Ctx, raw stdjson.RawMessage) {
 	var av allocVec
 	if stdjson.Unmarshal(raw, &av) == nil && av.Kind != "" && av.Pre > 0 {
@@ -1329,6 +1475,10 @@ func c08Replay(c *Ctx, raw stdjson.RawMessage) {
 			c08Alloc(c, k.Alloc)
 			return
 		}
+		if strings.HasPrefix(k.What, "foreign bools") {
+			c08ForeignBools(c)
+			return
+		}
 		if strings.HasPrefix(k.What, "long value") {
 			c08LongOnce.Delete(k.Proto)
 			c08LongValue(c, k.Proto)
@@ -1341,5 +1491,5 @@ func c08Replay(c *Ctx, raw stdjson.RawMessage) {
 func init() {
 	register("C13", &Driver{Vector: c13Vector, Replay: c13Replay, Extra: c13Doubles})
 	register("C04", &Driver{Vector: c04Vector, Replay: c04Replay, Extra: c04Embedded})
-	register("C08", &Driver{Vector: c08Vector, Replay: c08Replay})
+	register("C08", &Driver{Vector: c08Vector, Replay: c08Replay, Extra: c08ForeignBools})
 }
